@@ -25,6 +25,7 @@ use crate::{
             get_prototype_from_constructor, ordinary_define_own_property,
             ordinary_get_own_property,
         },
+        shape::slot::SlotAttributes,
     },
     property::{Attribute, PropertyDescriptor, PropertyKey, PropertyNameKind},
     realm::Realm,
@@ -3452,8 +3453,11 @@ fn array_exotic_define_own_property(
     match key {
         // 2. If P is "length", then
         PropertyKey::String(s) if s == &StaticJsStrings::LENGTH => {
-            // a. Return ? ArraySetLength(A, Desc).
+            // Setting the length can delete elements or throw, so a store through
+            // the inline cache must not bypass `ArraySetLength`.
+            context.slot().attributes |= SlotAttributes::NOT_CACHEABLE;
 
+            // a. Return ? ArraySetLength(A, Desc).
             array_set_length(obj, desc, context)
         }
         // 3. Else if P is an array index, then
